@@ -25,6 +25,8 @@ mod arms;
 #[cfg(kani)]
 pub mod c01;
 #[cfg(kani)]
+mod c01v;
+#[cfg(kani)]
 mod c02;
 #[cfg(kani)]
 mod c03;
